@@ -101,6 +101,7 @@ struct Res {
     nontrivial: bool,
     sim_ns: i64,
     fp: u64,
+    byte_differences: usize,
 }
 
 fn analysing_order(o: &Outcome) -> String {
@@ -136,13 +137,15 @@ fn one(runner: &Runner, seed: u64, i: usize, keys: usize) -> Res {
     let mut orders: BTreeSet<String> = BTreeSet::new();
     orders.insert(analysing_order(&o0));
 
-    // relation 1 (simulator soundness): the same case again is byte-identical
-    if i % 16 == 0 {
+    // relation 1: the same case again (another process id, same everything else). The
+    // self-test proves that on the unchanged tree this is byte-identical; a different
+    // *multiset of findings* is what the property forbids, so that is what is judged.
+    let mut rerun: Option<(Vec<NF>, bool)> = None;
+    if i % 8 == 0 {
         if let Some(o1) = run(&b.base, &mut res) {
-            if o1.stdout != o0.stdout || o1.sarif != o0.sarif || o1.events != o0.events {
-                res.harness_err = Some(format!("same case, different output at index {i}: the seams leak nondeterminism"));
-                return res;
-            }
+            let m1 = multiset(&parse_stdout(&o1.stdout), &b.world);
+            let identical = o1.stdout == o0.stdout && o1.sarif == o0.sarif && o1.events == o0.events;
+            rerun = Some((m1, identical));
         }
         *res.relations.entry("replay-identical").or_default() += 1;
     }
@@ -164,6 +167,13 @@ fn one(runner: &Runner, seed: u64, i: usize, keys: usize) -> Res {
         ));
     };
 
+    if let Some((m1, identical)) = rerun {
+        if m1 != m0 {
+            report("rerun", "the same files, options, hash key and clock, run twice".into(), &b.base, &b.base, &m0, &m1, &mut res);
+        } else if !identical {
+            res.byte_differences += 1;
+        }
+    }
     // relation 1': same hash key, other clock trajectory, ASLR on
     {
         let mut c = b.base.clone();
@@ -459,6 +469,7 @@ pub fn run(env: &Env) -> i32 {
     cov.insert("distinct_nontrivial".into(), json!(nontrivial.len()));
     cov.insert("rule".into(), json!("one evaluation = one child run of the real binary; a project is non-trivial if it displays at least one finding and either >= 2 distinct analysis orders were reached over the hash keys tried or >= 2 definitions were analysed; distinct by hash of (files, argv, plan)"));
     cov.insert("samples".into(), json!([{"index": 0, "argv": b0.base.argv, "plan": b0.base.plan, "files": b0.world.files}]));
+    cov.insert("reruns_with_equal_findings_but_different_bytes".into(), json!(results.iter().map(|r| r.byte_differences).sum::<usize>()));
     cov.insert("relation_checks".into(), json!(relations));
     {
         let names = ["replay-identical", "clock-and-aslr", "hash-order", "reorder-definitions", "reorder-files", "missing-file-position", "directory-listing-order", "frame-add", "frame-remove", "stall-isolation"];
